@@ -85,6 +85,15 @@ def geometry(c):
     if c.get("as") == "hullmesh" and isinstance(geom, trimesh.PointCloud):
         h = geom.convex_hull
         geom = trimesh.Trimesh(np.array(h.vertices), np.array(h.faces), process=False)
+    # history on the same object: another bounding query first (they share the cached hull), then possibly a
+    # mirror placement, and only then the query that is judged
+    if c.get("before"):
+        _ = getattr(geom, {"sphere": "bounding_sphere", "hull": "convex_hull", "obb": "bounding_box_oriented",
+                           "cyl": "bounding_cylinder"}[c["before"]])
+    if c.get("mirror"):
+        M = np.diag([1.0, 1.0, -1.0, 1.0])
+        M[:3, 3] = [0.5, -1.0, 2.0]
+        geom.apply_transform(M)
     return geom, np.array(geom.vertices, dtype=np.float64)
 
 
@@ -93,6 +102,11 @@ def cases(ctx):
     # every kind of point set through the hull checker once; clusters at every spread (qhull's repair path)
     for kind in KINDS:
         yield {"cloud": kind, "seed": 11, "query": "hull", "move": False, "as": "cloud"}
+    for kind in ("random", "torus", "long"):
+        for q in ("hull", "obb", "cylinder", "sphere"):
+            for asx in ("cloud", "hullmesh"):
+                yield {"cloud": kind, "seed": 12, "query": q, "move": True, "as": asx, "before": "sphere", "mirror": False}
+                yield {"cloud": kind, "seed": 12, "query": q, "move": True, "as": asx, "before": "hull", "mirror": True}
     for k in range(2, 7):
         for mv in (False, True):
             yield {"cloud": "cluster", "seed": 20 + k, "query": "hull", "move": mv, "as": "cloud", "spread": 10.0 ** -k}
@@ -112,7 +126,8 @@ def cases(ctx):
         kind = rng.choice(KINDS)
         q = rng.choice(QUERIES)
         c = {"cloud": kind, "seed": rng.randrange(10 ** 6), "query": q, "move": rng.random() < 0.5,
-             "as": rng.choice(["cloud", "hullmesh"])}
+             "as": rng.choice(["cloud", "hullmesh"]), "before": rng.choice([None, None, "sphere", "hull", "obb", "cyl"]),
+             "mirror": rng.random() < 0.25}
         if q == "obb_opts":
             c["ordered"] = rng.random() < 0.5
             c["angle_digits"] = rng.choice([1, 2, 0])
